@@ -54,7 +54,8 @@ ASSUMPTIONS = [
     "for prehashed ECDSA input longer than the curve order only the leftmost order-length bits are mutated "
     "(the rest is not part of the signed value by FIPS 186-4)",
 ]
-REQUIRED_COUNTERS = ["priv_roundtrip", "pub_roundtrip", "export_decoded", "sign_verify", "ref_verify", "negatives",
+REQUIRED_COUNTERS = [
+    "certificate_validations", "priv_roundtrip", "pub_roundtrip", "export_decoded", "sign_verify", "ref_verify", "negatives",
                      "sig_convert", "cli", "leading_zero_keys", "leading_zero_sigs"]
 CASE_TIMEOUT_S = 3600  # wall-clock watchdog only (RSA-4096 edge cases need ~10 CPU s; the machine may be shared 40-fold)
 WATCHDOG_S = {"quick": 3000, "thorough": 14400}
@@ -660,6 +661,18 @@ def battery_certificate(ctx, agg, rng, k, kp, want, kcls):
     pss = rng.random() < 0.5 if want["type"] == "rsa" else None
     gen = s.Certificate.generate_certificate(name, name, kp, k, serial_number=rng.getrandbits(63) | 1, pss_padding=pss)
     certs.append(("generated-selfsigned" + ("-pss" if pss else ""), gen.export(s.Enc.DER), want))
+    # a certificate from another tool: self-signed with a hash drawn independently of the key size (the hash a certificate
+    # is signed with is named IN the certificate; it need not be the one SPSDK would choose for that key)
+    import datetime
+
+    from cryptography.hazmat.primitives import hashes as chashes
+    from cryptography.hazmat.primitives import serialization as cser
+
+    fh = core.pick(rng, ["sha256", "sha384", "sha512"])
+    foreign = (x509.CertificateBuilder().subject_name(name).issuer_name(name).public_key(k.key.public_key())
+               .serial_number(rng.getrandbits(63) | 1).not_valid_before(datetime.datetime(2024, 1, 1))
+               .not_valid_after(datetime.datetime(2044, 1, 1)).sign(k.key, getattr(chashes, fh.upper())()))
+    certs.append((f"foreign-selfsigned-{fh}", foreign.public_bytes(cser.Encoding.DER), want))
     for label, data, issuer in certs:
         cls = [kcls, label]
         if issuer is not None:
@@ -676,6 +689,31 @@ def battery_certificate(ctx, agg, rng, k, kp, want, kcls):
                 agg.ok("sign", "certificate", kcls, str(info["sig_alg"]))
         path = _write(os.path.join(ctx.workdir, f"crt_{ctx.case_index}_{label}.crt"), data)
         cert = s.Certificate.parse(data)
+        # the certificate's signature through SPSDK's own validation: valid under its issuer (with the hash the certificate
+        # names), not under another key.  PSS certificates are left out (verify_signature is called without the padding).
+        if issuer is not None and "pss" not in label:
+            not_other = {want["name"]}
+            if "chain" in label:
+                root = next(ch for ch in pki.index()["chains"].values() if ch["keys"][-1] == want["name"] and len(ch["keys"]) > 1)
+                not_other.add(root["keys"][-2])
+                with open(os.path.join(pki.DIR, root["certs"][-2]), "rb") as f:
+                    issuer_cert = s.Certificate.parse(f.read())
+                verdicts = {"validate(issuer)": cert.validate(issuer_cert), "issuer.validate_subject": issuer_cert.validate_subject(cert),
+                            "not self_signed": not cert.self_signed}
+            else:
+                verdicts = {"validate(self)": cert.validate(cert), "validate_subject(self)": cert.validate_subject(cert),
+                            "self_signed": cert.self_signed}
+            # (a pool key that is neither the subject nor the issuer of THIS certificate)
+            other_cert = s.Certificate.parse(pki.data(core.pick(rng, [n for n in pki.names(want["kind"]) if n not in not_other]), "cert", "der"))
+            verdicts["not validate(other)"] = not cert.validate(other_cert)
+            verdicts["not other.validate_subject"] = not other_cert.validate_subject(cert)
+            ctx.count("certificate_validations", len(verdicts))
+            wrong = sorted(kx for kx, v in verdicts.items() if v is not True)
+            if wrong:
+                agg.bad("certificate-validation-wrong-verdict", {"class": cls, "key": want["name"], "wrong": wrong,
+                                                                 "signature_hash": str(keyder.parse_certificate(data)["sig_alg"])})
+            else:
+                agg.ok("certificate", "validate", kcls, label.split("-")[0] + "-" + label.split("-")[-1])
         blobs = [("as-is", data)]
         if label.endswith("der") or label.startswith("generated"):
             blobs += [("re-export-" + e, cert.export(s.ENC[e])) for e in ("PEM", "DER", "NXP")]
@@ -908,7 +946,9 @@ def battery_provider(ctx, agg, rng, k, kp, want, kcls, other_pub):
     exp_len = want["bits"] // 8 if want["type"] == "rsa" else 2 * want["size"]
     enc_name = core.pick(rng, ["PEM", "DER"])
     pw = core.pick(rng, [None, "secret123", "pass word with  spaces"])
-    path = os.path.join(ctx.workdir, f"sp_{ctx.case_index}.key")
+    # half of the cases (re)write ONE key file name: the key in a file may change between two providers of one process
+    # (key rotation, a sweep over one temporary name); a provider must sign with what the file holds when it is created
+    path = os.path.join(ctx.workdir, "sp_rotated.key" if rng.random() < 0.5 else f"sp_{ctx.case_index}.key")
     k.save(path, pw, s.ENC[enc_name])
     hname = core.pick(rng, [None] + HASHES)
     pss = want["type"] == "rsa" and rng.random() < 0.5
